@@ -491,6 +491,28 @@ fn next_up(f: f64) -> f64 {
     f64::from_bits(if f > 0.0 { b + 1 } else { b - 1 })
 }
 
+/// two integers beyond 2^53 that are neighbours (equal as doubles), through every operator
+fn random_big_integers(src: &mut Src, obs: &mut Obs) -> Res {
+    let mag: i64 = match src.below(4) {
+        0 => (1 << 53) + src.range(0, 1000),
+        1 => (1i64 << (54 + src.below(9))) + src.range(-3, 3),
+        2 => i64::MAX - src.range(0, 1000),
+        _ => src.range(1 << 53, i64::MAX - 1),
+    };
+    let a = if src.bool() { mag } else { -mag };
+    let b = match src.below(4) {
+        0 => a,
+        1 => a.saturating_add(1),
+        2 => a.saturating_sub(1),
+        _ => a.saturating_add(src.range(-600, 600)),
+    };
+    obs.label("integer-neighbours-beyond-2^53");
+    let forms = [Form::RelDot, Form::AbsRoot, Form::RelViaArray, Form::ValueFn];
+    let fa = *src.pick(&forms);
+    let fb = *src.pick(&forms);
+    check_cell(&Some(J::Int(a)), &Some(J::Int(b)), fa, fb, 0, obs)
+}
+
 fn random_numbers(src: &mut Src, obs: &mut Obs) -> Res {
     let base: f64 = match src.below(6) {
         0 => src.range(-1000, 1000) as f64,
@@ -643,6 +665,7 @@ pub fn prop() -> Prop {
             Sub { name: "random-wide", kind: Kind::Random { f: random_wide, quick: 16_000, thorough: 320_000, len: 900 } },
             Sub { name: "random-deep", kind: Kind::Random { f: random_deep, quick: 100_000, thorough: 2_000_000, len: 300 } },
             Sub { name: "random-numbers", kind: Kind::Random { f: random_numbers, quick: 100_000, thorough: 2_000_000, len: 32 } },
+            Sub { name: "random-big-integers", kind: Kind::Random { f: random_big_integers, quick: 40_000, thorough: 800_000, len: 32 } },
             Sub { name: "random-escaped-names", kind: Kind::Random { f: random_escaped_names, quick: 40_000, thorough: 800_000, len: 100 } },
             Sub { name: "random-escaped-literals", kind: Kind::Random { f: random_escaped_literals, quick: 40_000, thorough: 800_000, len: 64 } },
         ],
